@@ -428,268 +428,298 @@ def r_tabs(prog, tier):
 
 def r_guard(prog, tier):
     obs = []
-    # ---- bracket writer refuses exactly the discontinuous trees
-    f = prog.func('treeoutput', 'brackets')
-    cfg = f.cfg
-    tree = f.params[0]
-    G = 'treeanalysis.gap_degree(%s)' % tree
-    cont = [('cmp', G, '<=', '0'), ('cmp', G, '<', '1'), ('cmp', G, '==', '0'), ('cmp', '0', '==', G)]
-    disc = [('cmp', '0', '<', G), ('cmp', '1', '<=', G), ('cmp', G, '!=', '0'), ('cmp', '0', '!=', G)]
-    outs = []
-    for n in cfg.eval_nodes():
-        if n.kind == 'stmt':
-            for sub in walk_own(n.ast):
-                if isinstance(sub, ast.Call) and (prog.callee(sub, f) == ('treeoutput', 'write_brackets_subtree')
-                                                  or unparse(sub.func) == '%s.write' % f.params[1]):
-                    outs.append((n, sub))
-    if not outs:
-        raise Unrecognised('treeoutput.brackets writes nothing')
-    def _mentions_gap(fa):
-        return any(isinstance(t, str) and ('gap' in t or 'disc' in t or 'continuous' in t) for t in fa[1:])
-    for (n, sub) in outs:
-        facts = [x[0] for x in facts_at(cfg, n.id)]
-        ok = any(c in facts for c in cont)
-        verdict = True if ok else False
-        why = 'dominated by `not %s > 0`' % G if ok else \
-            'a discontinuous tree (also a skipped one) reaches this write and comes out as a scrambled bracketing'
-        if not ok:
-            related = [fa for fa in facts if _mentions_gap(fa)]
-            if any(d in facts for d in disc):
-                why = 'this write happens exactly for trees with gap degree > 0'
-            elif related or [c_ for c_ in prog.opaque_calls(f, [tree], before=n.id)
-                             if (prog.callee(c_[1], f) or ('?',))[0] not in ('treeanalysis', 'trees', 'treeoutput')]:
-                verdict = None
-                why = 'guard %s not recognised' % (related[:1] or 'delegated to a helper')
-        obs.append(Ob('R-GUARD/BRACKETS', f.fq, 'output `%s` happens only for a tree of gap degree 0' % unparse(sub)[:50],
-                      verdict, why, construct='guard-br:' + unparse(sub)[:50], line=n.lineno))
-    raises = [n for n in cfg.eval_nodes() if n.kind == 'stmt' and isinstance(n.ast, ast.Raise)]
-    ok = False
-    partial = False
-    for r in raises:
-        facts = [x[0] for x in facts_at(cfg, r.id)]
-        if any(d in facts for d in disc) and ('haskey', f.kwarg, 'brackets_skipdisco', False) in facts \
-                and unparse(r.ast.exc).startswith('ValueError('):
-            ok = True
-        elif any(_mentions_gap(fa) for fa in facts) or any('skipdisco' in str(fa) for fa in facts):
-            partial = True
-    verdict = True if ok else (None if (partial or [c_ for c_ in prog.opaque_calls(f, [tree])
-                                                    if (prog.callee(c_[1], f) or ('?',))[0] not in ('treeanalysis', 'trees', 'treeoutput')])
-                               else False)
-    if not ok and raises and not partial:
+
+    def _sec_brackets():
+        # ---- bracket writer refuses exactly the discontinuous trees
+        f = prog.func('treeoutput', 'brackets')
+        cfg = f.cfg
+        tree = f.params[0]
+        G = 'treeanalysis.gap_degree(%s)' % tree
+        cont = [('cmp', G, '<=', '0'), ('cmp', G, '<', '1'), ('cmp', G, '==', '0'), ('cmp', '0', '==', G)]
+        disc = [('cmp', '0', '<', G), ('cmp', '1', '<=', G), ('cmp', G, '!=', '0'), ('cmp', '0', '!=', G)]
+        outs = []
+        for n in cfg.eval_nodes():
+            if n.kind == 'stmt':
+                for sub in walk_own(n.ast):
+                    if isinstance(sub, ast.Call) and (prog.callee(sub, f) == ('treeoutput', 'write_brackets_subtree')
+                                                      or unparse(sub.func) == '%s.write' % f.params[1]):
+                        outs.append((n, sub))
+        if not outs:
+            raise Unrecognised('treeoutput.brackets writes nothing')
+        def _mentions_gap(fa):
+            return any(isinstance(t, str) and ('gap' in t or 'disc' in t or 'continuous' in t) for t in fa[1:])
+        for (n, sub) in outs:
+            facts = [x[0] for x in facts_at(cfg, n.id)]
+            ok = any(c in facts for c in cont)
+            verdict = True if ok else False
+            why = 'dominated by `not %s > 0`' % G if ok else \
+                'a discontinuous tree (also a skipped one) reaches this write and comes out as a scrambled bracketing'
+            if not ok:
+                related = [fa for fa in facts if _mentions_gap(fa)]
+                if any(d in facts for d in disc):
+                    why = 'this write happens exactly for trees with gap degree > 0'
+                elif related or [c_ for c_ in prog.opaque_calls(f, [tree], before=n.id)
+                                 if (prog.callee(c_[1], f) or ('?',))[0] not in ('treeanalysis', 'trees', 'treeoutput')]:
+                    verdict = None
+                    why = 'guard %s not recognised' % (related[:1] or 'delegated to a helper')
+            obs.append(Ob('R-GUARD/BRACKETS', f.fq, 'output `%s` happens only for a tree of gap degree 0' % unparse(sub)[:50],
+                          verdict, why, construct='guard-br:' + unparse(sub)[:50], line=n.lineno))
+        raises = [n for n in cfg.eval_nodes() if n.kind == 'stmt' and isinstance(n.ast, ast.Raise)]
+        ok = False
+        partial = False
+        for r in raises:
+            facts = [x[0] for x in facts_at(cfg, r.id)]
+            if any(d in facts for d in disc) and ('haskey', f.kwarg, 'brackets_skipdisco', False) in facts \
+                    and unparse(r.ast.exc).startswith('ValueError('):
+                ok = True
+            elif any(_mentions_gap(fa) for fa in facts) or any('skipdisco' in str(fa) for fa in facts):
+                partial = True
+        verdict = True if ok else (None if (partial or [c_ for c_ in prog.opaque_calls(f, [tree])
+                                                        if (prog.callee(c_[1], f) or ('?',))[0] not in ('treeanalysis', 'trees', 'treeoutput')])
+                                   else False)
+        if not ok and raises and not partial:
+            verdict = None
+        obs.append(Ob('R-GUARD/BRACKETS', f.fq, 'a discontinuous tree is refused with ValueError unless brackets_skipdisco '
+                      'is given', verdict, 'raise under gap degree > 0 and not skipdisco' if ok else
+                      ('the function never raises: discontinuous trees are never refused' if verdict is False else
+                       'a raise exists but its condition is not recognised'),
+                      construct='guard-br-raise', line=f.node.lineno))
+
+    def _sec_lopar():
+        # ---- LoPar refuses non-context-free grammars before opening any file
+        f = prog.func('grammaroutput', 'lopar')
+        cfg = f.cfg
+        G = f.params[0]
+        opens = [n for n in cfg.eval_nodes() if n.kind == 'with' or any(
+            isinstance(x, ast.Call) and unparse(x.func) in ('io.open', 'open') for r_ in cfg.exprs(n.id) for x in ast.walk(r_))]
+        calls = [n for n in cfg.eval_nodes() for r_ in cfg.exprs(n.id) for x in ast.walk(r_)
+                 if isinstance(x, ast.Call) and prog.callee(x, f) == ('grammaranalysis', 'is_contextfree')]
         verdict = None
-    obs.append(Ob('R-GUARD/BRACKETS', f.fq, 'a discontinuous tree is refused with ValueError unless brackets_skipdisco '
-                  'is given', verdict, 'raise under gap degree > 0 and not skipdisco' if ok else
-                  ('the function never raises: discontinuous trees are never refused' if verdict is False else
-                   'a raise exists but its condition is not recognised'),
-                  construct='guard-br-raise', line=f.node.lineno))
-    # ---- LoPar refuses non-context-free grammars before opening any file
-    f = prog.func('grammaroutput', 'lopar')
-    cfg = f.cfg
-    G = f.params[0]
-    opens = [n for n in cfg.eval_nodes() if n.kind == 'with' or any(
-        isinstance(x, ast.Call) and unparse(x.func) in ('io.open', 'open') for r_ in cfg.exprs(n.id) for x in ast.walk(r_))]
-    calls = [n for n in cfg.eval_nodes() for r_ in cfg.exprs(n.id) for x in ast.walk(r_)
-             if isinstance(x, ast.Call) and prog.callee(x, f) == ('grammaranalysis', 'is_contextfree')]
-    verdict = None
-    why = 'context-freeness test not recognised'
-    if not opens:
-        raise Unrecognised('grammaroutput.lopar opens no file')
-    if not calls and not prog.opaque_calls(f, [G]):
-        verdict, why = False, 'is_contextfree(%s) is never consulted: any LCFRS is written as if it were a PCFG' % G
-    elif calls:
-        guarded = all(any(fa in (('opaque', 'grammaranalysis.is_contextfree(%s)' % G, True),)
-                          for fa in [x[0] for x in facts_at(cfg, o.id)]) for o in opens)
-        raising = [r for r in cfg.eval_nodes() if r.kind == 'stmt' and isinstance(r.ast, ast.Raise)
-                   and ('opaque', 'grammaranalysis.is_contextfree(%s)' % G, False) in [x[0] for x in facts_at(cfg, r.id)]]
-        if guarded and raising:
-            verdict, why = True, 'every open happens only after is_contextfree(%s) held; its failure raises' % G
-        elif guarded and not raising:
-            verdict, why = None, 'opens are guarded but no raise under the failing test was found'
-        else:
-            first_call = min(c.id for c in calls)
-            early = [o for o in opens if not any(cfg.dominates(c.id, o.id) for c in calls)]
-            if early and not any(fa[0] == 'opaque' for o in early for fa in [x[0] for x in facts_at(cfg, o.id)]):
-                verdict, why = False, 'a file is opened (line %d) before / without the context-freeness test' % early[0].lineno
-    obs.append(Ob('R-GUARD/LOPAR', f.fq, 'a grammar that is not context-free is refused before anything is written', verdict, why,
-                  construct='guard-lopar', line=f.node.lineno))
-    # ---- gap oracle
-    f = prog.func('transitions', 'gap')
-    cfg = f.cfg
-    appends = []
-    tvars = set()
-    for n in cfg.eval_nodes():
-        if n.kind == 'stmt' and isinstance(n.ast, ast.Assign) and isinstance(n.ast.value, ast.Call) \
-                and unparse(n.ast.value.func) == 'Transition' and isinstance(n.ast.targets[0], ast.Name):
-            tvars.add(n.ast.targets[0].id)
-    for n in cfg.eval_nodes():
-        if n.kind == 'stmt' and isinstance(n.ast, ast.Expr) and isinstance(n.ast.value, ast.Call) \
-                and isinstance(n.ast.value.func, ast.Attribute) and n.ast.value.func.attr == 'append' \
-                and len(n.ast.value.args) == 1:
-            a0 = n.ast.value.args[0]
-            if (isinstance(a0, ast.Name) and a0.id in tvars) or \
-                    (isinstance(a0, ast.Call) and unparse(a0.func) == 'Transition'):
-                appends.append(n)
-    tdefs = {}
-    for n in cfg.eval_nodes():
-        if n.kind == 'stmt' and isinstance(n.ast, ast.Assign) and isinstance(n.ast.value, ast.Call) \
-                and unparse(n.ast.value.func) == 'Transition' and n.ast.value.args:
-            tdefs[n.id] = unparse(n.ast.value.args[0])
-    outer = [n for n in cfg.eval_nodes() if n.kind == 'test' and isinstance(n.ast, ast.Constant) and not n.loops]
-    breaks = [n for n in cfg.eval_nodes() if n.kind == 'stmt' and isinstance(n.ast, ast.Break)
-              and len(n.loops) == 1]
-    if len(outer) != 1 or len(breaks) != 1 or len(appends) < 4:
-        raise Unrecognised('transitions.gap: main loop / break / transition emissions not found (%d/%d/%d)'
-                            % (len(outer), len(breaks), len(appends)))
-    brk = breaks[0]
-    unary_app = []
-    other_app = []
-    for a in appends:
-        # which Transition(...) text reaches it
-        txt = None
-        for nid, t in tdefs.items():
-            if cfg.dominates(nid, a.id) and cfg.same_loop(nid, a.id) and not cfg.between(nid, a.id):
-                txt = t
-        (unary_app if txt and 'UNARY' in txt else other_app).append(a)
-    if not unary_app:
-        raise Unrecognised('transitions.gap emits no UNARY transition')
-    closure_tests = set()
-    for a in unary_app:
-        inner = [cfg.nodes[l] for l in a.loops if l != outer[0].id]
-        ok = bool(inner) and inner[-1].kind == 'test' and any(
-            fa[0] == 'cmp' and fa[2] == '==' and fa[3] == '1' and fa[1].startswith('len(') and 'children' in fa[1]
-            for fa in [norm_test(e_, p_) for (e_, p_) in split_assumes(inner[-1].ast, True)])
-        if ok:
-            closure_tests.add(inner[-1].id)
-            # the loop advances: d[0] = d[0].parent in every iteration
-            adv = any(m.kind == 'stmt' and isinstance(m.ast, ast.Assign) and isinstance(m.ast.targets[0], ast.Subscript)
-                      and unparse(m.ast.value) == unparse(m.ast.targets[0]) + '.parent'
-                      and cfg.in_every_iteration(inner[-1].id, m.id) for m in cfg.eval_nodes())
-            ok = adv
-        verdict = True if ok else None
-        if not ok and not inner:
-            verdict = False       # positive: the emission is not inside any loop but the main one
-        obs.append(Ob('R-GUARD/GAP', f.fq, 'UNARY transitions are emitted by a closure loop (one per stacked unary node)',
-                      verdict, 'inside `while %s` which climbs one node per iteration' % unparse(inner[-1].ast)[:70] if ok else
-                      ('the unary check is not a loop over the chain of unary parents: at most one UNARY per step'
-                       if verdict is False else 'inner loop of a shape this rule does not model'),
-                      construct='gap-closure', line=a.lineno))
-    for a in other_app:
-        ok = (not cfg.can_reach(a.id, brk.id, avoid=closure_tests)) if closure_tests else None
-        obs.append(Ob('R-GUARD/GAP', f.fq, 'after emission at line %d the oracle cannot stop before the unary closure ran'
-                      % a.lineno, ok, 'every path to `break` passes the closure loop' if ok else
-                      'the termination test is reached before the unary check: unary nodes above the last item '
-                      '(e.g. the root of a one-token sentence) get no transition',
-                      construct='gap-order:%d' % other_app.index(a), line=a.lineno))
-    # ---- top-down oracle: arity dispatch is exhaustive
-    f = prog.func('transitions', 'topdown')
-    cfg = f.cfg
-    chv = None
-    for n in cfg.eval_nodes():
-        if n.kind == 'stmt' and isinstance(n.ast, ast.Assign) and isinstance(n.ast.value, ast.Call) \
-                and prog.callee(n.ast.value, f) == ('trees', 'children') and n.loops and isinstance(n.ast.targets[0], ast.Name):
-            lp = cfg.nodes[n.loops[-1]]
-            if lp.kind == 'iter' and unparse(n.ast.value.args[0]) == unparse(lp.ast.target):
-                chv = n.ast.targets[0].id
-    ch = chv is not None
-    LC = 'len(%s)' % chv
-    apps = [n for n in cfg.eval_nodes() if n.kind == 'stmt' and isinstance(n.ast, ast.Expr) and isinstance(n.ast.value, ast.Call)
-            and isinstance(n.ast.value.func, ast.Attribute) and n.ast.value.func.attr == 'append'
-            and 'Transition(' in unparse(n.ast)]
-    seen = {}
-    for a in apps:
-        for (fa, _) in facts_at(cfg, a.id):
-            if fa[0] == 'cmp' and fa[1] == LC and fa[2] == '==' and fa[3] in ('0', '1', '2'):
-                seen[fa[3]] = unparse(a.ast)
-    kinds_ok = sorted(seen) == ['0', '1', '2'] and 'SHIFT' in seen['0'] and 'UNARY' in seen['1'] and 'BINARY' in seen['2']
-    rz = [n for n in cfg.eval_nodes() if n.kind == 'stmt' and isinstance(n.ast, ast.Raise)
-          and all(('cmp', LC, '!=', k) in [x[0] for x in facts_at(cfg, n.id)] for k in ('0', '1', '2'))]
-    verdict = True if (kinds_ok and rz and ch) else None
-    why = 'exhaustive if/elif chain with final raise' if verdict else \
-        'chain not recognised: %s, final raise %s, ordered children %s' % (seen, bool(rz), ch)
-    wrong = [(k, t) for k, t in seen.items() if not {'0': 'SHIFT', '1': 'UNARY', '2': 'BINARY'}[k] in t]
-    if wrong and ch:
-        verdict, why = False, 'arity %s emits `%s`' % (wrong[0][0], wrong[0][1][:50])
-    obs.append(Ob('R-GUARD/TOPDOWN', f.fq, 'arity 0/1/2 of the ordered children map to SHIFT/UNARY/BINARY, anything else '
-                  'is refused', verdict, why, construct='topdown-arity', line=f.node.lineno))
-    # head side: LEFT iff <ordered children>[0] is the head
-    from ..values import expr_cases
-    hs = None
-    hwhy = 'head side computation not recognised'
-    for a in apps:
-        if 'BINARY' not in unparse(a.ast):
-            continue
-        for x in ast.walk(a.ast):
-            if isinstance(x, ast.Name) and x.id in f.locals and x.id != chv:
-                cs = expr_cases(f, x, a.id)
-                vals = dict()
-                for c in cs:
-                    if c.kind == 'value' and const_str(c.value) in ('LEFT', 'RIGHT'):
-                        for fa in c.facts:
-                            if fa[0] == 'truthy' and fa[1].endswith("].data['head']"):
-                                vals[const_str(c.value)] = fa
-                if len(vals) == 2:
-                    l, r = vals['LEFT'], vals['RIGHT']
+        why = 'context-freeness test not recognised'
+        if not opens:
+            raise Unrecognised('grammaroutput.lopar opens no file')
+        if not calls and not prog.opaque_calls(f, [G]):
+            verdict, why = False, 'is_contextfree(%s) is never consulted: any LCFRS is written as if it were a PCFG' % G
+        elif calls:
+            guarded = all(any(fa in (('opaque', 'grammaranalysis.is_contextfree(%s)' % G, True),)
+                              for fa in [x[0] for x in facts_at(cfg, o.id)]) for o in opens)
+            raising = [r for r in cfg.eval_nodes() if r.kind == 'stmt' and isinstance(r.ast, ast.Raise)
+                       and ('opaque', 'grammaranalysis.is_contextfree(%s)' % G, False) in [x[0] for x in facts_at(cfg, r.id)]]
+            if guarded and raising:
+                verdict, why = True, 'every open happens only after is_contextfree(%s) held; its failure raises' % G
+            elif guarded and not raising:
+                verdict, why = None, 'opens are guarded but no raise under the failing test was found'
+            else:
+                first_call = min(c.id for c in calls)
+                early = [o for o in opens if not any(cfg.dominates(c.id, o.id) for c in calls)]
+                if early and not any(fa[0] == 'opaque' for o in early for fa in [x[0] for x in facts_at(cfg, o.id)]):
+                    verdict, why = False, 'a file is opened (line %d) before / without the context-freeness test' % early[0].lineno
+        obs.append(Ob('R-GUARD/LOPAR', f.fq, 'a grammar that is not context-free is refused before anything is written', verdict, why,
+                      construct='guard-lopar', line=f.node.lineno))
+
+    def _sec_gap():
+        # ---- gap oracle
+        f = prog.func('transitions', 'gap')
+        cfg = f.cfg
+        appends = []
+        tvars = set()
+        for n in cfg.eval_nodes():
+            if n.kind == 'stmt' and isinstance(n.ast, ast.Assign) and isinstance(n.ast.value, ast.Call) \
+                    and unparse(n.ast.value.func) == 'Transition' and isinstance(n.ast.targets[0], ast.Name):
+                tvars.add(n.ast.targets[0].id)
+        for n in cfg.eval_nodes():
+            if n.kind == 'stmt' and isinstance(n.ast, ast.Expr) and isinstance(n.ast.value, ast.Call) \
+                    and isinstance(n.ast.value.func, ast.Attribute) and n.ast.value.func.attr == 'append' \
+                    and len(n.ast.value.args) == 1:
+                a0 = n.ast.value.args[0]
+                if (isinstance(a0, ast.Name) and a0.id in tvars) or \
+                        (isinstance(a0, ast.Call) and unparse(a0.func) == 'Transition'):
+                    appends.append(n)
+        tdefs = {}
+        for n in cfg.eval_nodes():
+            if n.kind == 'stmt' and isinstance(n.ast, ast.Assign) and isinstance(n.ast.value, ast.Call) \
+                    and unparse(n.ast.value.func) == 'Transition' and n.ast.value.args:
+                tdefs[n.id] = unparse(n.ast.value.args[0])
+        outer = [n for n in cfg.eval_nodes() if n.kind == 'test' and isinstance(n.ast, ast.Constant) and not n.loops]
+        breaks = [n for n in cfg.eval_nodes() if n.kind == 'stmt' and isinstance(n.ast, ast.Break)
+                  and len(n.loops) == 1]
+        if len(outer) != 1 or len(breaks) != 1 or len(appends) < 4:
+            raise Unrecognised('transitions.gap: main loop / break / transition emissions not found (%d/%d/%d)'
+                                % (len(outer), len(breaks), len(appends)))
+        brk = breaks[0]
+        unary_app = []
+        other_app = []
+        for a in appends:
+            # which Transition(...) text reaches it
+            txt = None
+            for nid, t in tdefs.items():
+                if cfg.dominates(nid, a.id) and cfg.same_loop(nid, a.id) and not cfg.between(nid, a.id):
+                    txt = t
+            (unary_app if txt and 'UNARY' in txt else other_app).append(a)
+        if not unary_app:
+            raise Unrecognised('transitions.gap emits no UNARY transition')
+        closure_tests = set()
+        for a in unary_app:
+            inner = [cfg.nodes[l] for l in a.loops if l != outer[0].id]
+            ok = bool(inner) and inner[-1].kind == 'test' and any(
+                fa[0] == 'cmp' and fa[2] == '==' and fa[3] == '1' and fa[1].startswith('len(') and 'children' in fa[1]
+                for fa in [norm_test(e_, p_) for (e_, p_) in split_assumes(inner[-1].ast, True)])
+            if ok:
+                closure_tests.add(inner[-1].id)
+                # the loop advances: d[0] = d[0].parent in every iteration
+                adv = any(m.kind == 'stmt' and isinstance(m.ast, ast.Assign) and isinstance(m.ast.targets[0], ast.Subscript)
+                          and unparse(m.ast.value) == unparse(m.ast.targets[0]) + '.parent'
+                          and cfg.in_every_iteration(inner[-1].id, m.id) for m in cfg.eval_nodes())
+                ok = adv
+            verdict = True if ok else None
+            if not ok and not inner:
+                verdict = False       # positive: the emission is not inside any loop but the main one
+            obs.append(Ob('R-GUARD/GAP', f.fq, 'UNARY transitions are emitted by a closure loop (one per stacked unary node)',
+                          verdict, 'inside `while %s` which climbs one node per iteration' % unparse(inner[-1].ast)[:70] if ok else
+                          ('the unary check is not a loop over the chain of unary parents: at most one UNARY per step'
+                           if verdict is False else 'inner loop of a shape this rule does not model'),
+                          construct='gap-closure', line=a.lineno))
+        for a in other_app:
+            ok = (not cfg.can_reach(a.id, brk.id, avoid=closure_tests)) if closure_tests else None
+            obs.append(Ob('R-GUARD/GAP', f.fq, 'after emission at line %d the oracle cannot stop before the unary closure ran'
+                          % a.lineno, ok, 'every path to `break` passes the closure loop' if ok else
+                          'the termination test is reached before the unary check: unary nodes above the last item '
+                          '(e.g. the root of a one-token sentence) get no transition',
+                          construct='gap-order:%d' % other_app.index(a), line=a.lineno))
+
+    def _sec_topdown():
+        # ---- top-down oracle: arity dispatch is exhaustive
+        f = prog.func('transitions', 'topdown')
+        cfg = f.cfg
+        chv = None
+        for n in cfg.eval_nodes():
+            if n.kind == 'stmt' and isinstance(n.ast, ast.Assign) and isinstance(n.ast.value, ast.Call) \
+                    and prog.callee(n.ast.value, f) == ('trees', 'children') and n.loops and isinstance(n.ast.targets[0], ast.Name):
+                lp = cfg.nodes[n.loops[-1]]
+                if lp.kind == 'iter' and unparse(n.ast.value.args[0]) == unparse(lp.ast.target):
+                    chv = n.ast.targets[0].id
+        ch = chv is not None
+        LC = 'len(%s)' % chv
+        apps = [n for n in cfg.eval_nodes() if n.kind == 'stmt' and isinstance(n.ast, ast.Expr) and isinstance(n.ast.value, ast.Call)
+                and isinstance(n.ast.value.func, ast.Attribute) and n.ast.value.func.attr == 'append'
+                and 'Transition(' in unparse(n.ast)]
+        seen = {}
+        for a in apps:
+            for (fa, _) in facts_at(cfg, a.id):
+                if fa[0] == 'cmp' and fa[1] == LC and fa[2] == '==' and fa[3] in ('0', '1', '2'):
+                    seen[fa[3]] = unparse(a.ast)
+        kinds_ok = sorted(seen) == ['0', '1', '2'] and 'SHIFT' in seen['0'] and 'UNARY' in seen['1'] and 'BINARY' in seen['2']
+        rz = [n for n in cfg.eval_nodes() if n.kind == 'stmt' and isinstance(n.ast, ast.Raise)
+              and all(('cmp', LC, '!=', k) in [x[0] for x in facts_at(cfg, n.id)] for k in ('0', '1', '2'))]
+        verdict = True if (kinds_ok and rz and ch) else None
+        why = 'exhaustive if/elif chain with final raise' if verdict else \
+            'chain not recognised: %s, final raise %s, ordered children %s' % (seen, bool(rz), ch)
+        wrong = [(k, t) for k, t in seen.items() if not {'0': 'SHIFT', '1': 'UNARY', '2': 'BINARY'}[k] in t]
+        if wrong and ch:
+            verdict, why = False, 'arity %s emits `%s`' % (wrong[0][0], wrong[0][1][:50])
+        obs.append(Ob('R-GUARD/TOPDOWN', f.fq, 'arity 0/1/2 of the ordered children map to SHIFT/UNARY/BINARY, anything else '
+                      'is refused', verdict, why, construct='topdown-arity', line=f.node.lineno))
+        # head side: LEFT iff <ordered children>[0] is the head
+        from ..values import expr_cases
+        hs = None
+        hwhy = 'head side computation not recognised'
+        for a in apps:
+            if 'BINARY' not in unparse(a.ast):
+                continue
+            for x in ast.walk(a.ast):
+                if isinstance(x, ast.Name) and x.id in f.locals and x.id != chv:
+                    cs = expr_cases(f, x, a.id)
+                    vals = dict()
+                    for c in cs:
+                        if c.kind == 'value' and const_str(c.value) in ('LEFT', 'RIGHT'):
+                            for fa in c.facts:
+                                if fa[0] == 'truthy' and fa[1].endswith("].data['head']"):
+                                    vals[const_str(c.value)] = fa
+                    consts = [c for c in cs if c.kind == 'value' and const_str(c.value) in ('LEFT', 'RIGHT')]
+                    if consts and a.loops:
+                        outside = [c for c in consts if a.loops[0] not in cfg.nodes[c.node].loops]
+                        inside = [c for c in consts if a.loops[0] in cfg.nodes[c.node].loops]
+                        if outside and inside and not any(a.loops[0] in cfg.nodes[c.node].loops and const_str(c.value) == const_str(outside[0].value)
+                                                          for c in consts):
+                            hs = False
+                            hwhy = 'the head side `%s` is set once before the loop over the nodes and only ever switched to `%s` inside ' \
+                                   'it: after the first such node every later binary node gets the same side' % (
+                                       const_str(outside[0].value), const_str(inside[0].value))
+                            continue
+                    if len(vals) == 2:
+                        l, r = vals['LEFT'], vals['RIGHT']
+                        first = "%s[0].data['head']" % chv
+                        if l == ('truthy', first, True) and r == ('truthy', first, False):
+                            hs, hwhy = True, "LEFT when %s, else RIGHT" % first
+                        elif l == ('truthy', first, False) and r == ('truthy', first, True):
+                            hs, hwhy = False, 'LEFT and RIGHT are swapped: LEFT is emitted when the first child is NOT the head'
+                        elif l[1].startswith('%s[1]' % chv) or l[1].startswith('%s[-1]' % chv):
+                            if l[2] is True:
+                                hs, hwhy = False, 'LEFT is emitted when the second child is the head'
+                elif isinstance(x, ast.IfExp) and const_str(x.body) in ('LEFT', 'RIGHT'):
+                    t = norm_test(x.test, True)
                     first = "%s[0].data['head']" % chv
-                    if l == ('truthy', first, True) and r == ('truthy', first, False):
-                        hs, hwhy = True, "LEFT when %s, else RIGHT" % first
-                    elif l == ('truthy', first, False) and r == ('truthy', first, True):
-                        hs, hwhy = False, 'LEFT and RIGHT are swapped: LEFT is emitted when the first child is NOT the head'
-                    elif l[1].startswith('%s[1]' % chv) or l[1].startswith('%s[-1]' % chv):
-                        if l[2] is True:
-                            hs, hwhy = False, 'LEFT is emitted when the second child is the head'
-            elif isinstance(x, ast.IfExp) and const_str(x.body) in ('LEFT', 'RIGHT'):
-                t = norm_test(x.test, True)
-                first = "%s[0].data['head']" % chv
-                if t == ('truthy', first, True):
-                    hs = const_str(x.body) == 'LEFT' and const_str(x.orelse) == 'RIGHT'
-                    hwhy = "'%s' if %s else '%s'" % (const_str(x.body), first, const_str(x.orelse))
-    obs.append(Ob('R-GUARD/TOPDOWN', f.fq, 'head side is LEFT iff the first ordered child is the head', hs, hwhy,
-                  construct='topdown-side', line=f.node.lineno, nontrivial=False))
-    # ---- binarization refuses unmarked trees before reading the mark
-    f = prog.func('transform', '_binarize_tree')
-    cfg = f.cfg
-    reads = []
-    for n in cfg.eval_nodes():
-        for root in cfg.exprs(n.id):
-            for sub in ast.walk(root):
-                if isinstance(sub, ast.Subscript) and unparse(sub).endswith(".data['head']") and isinstance(sub.ctx, ast.Load):
-                    reads.append((n, sub))
-    if not reads:
-        raise Unrecognised('_binarize_tree does not read head marks')
-    for (n, sub) in reads:
-        X = unparse(sub.value)
-        facts = [x[0] for x in facts_at(cfg, n.id)]
-        from ..core import expr_guards
-        facts = facts + expr_guards(f, sub)
-        ok = ('haskey', X, 'head', True) in facts
-        verdict = True if ok else False
-        if not ok:
-            anytest = any(isinstance(x, ast.Compare) and isinstance(x.ops[0], (ast.In, ast.NotIn)) and const_str(x.left) == 'head'
-                          for x in walk_own(f.node))
-            hastry = any(isinstance(x, ast.Try) for x in walk_own(f.node))
-            if anytest or hastry or prog.opaque_calls(f, [root_name(sub)], before=n.id):
-                verdict = None
-        obs.append(Ob('R-GUARD/BINARIZE', f.fq, 'the head mark `%s` is read only after its presence was checked' % unparse(sub),
-                      verdict, 'dominated by the failure of `\'head\' not in %s` (which raises)' % X if ok else
-                      ('read without the presence check: an unmarked tree gives KeyError or is binarized arbitrarily'
-                       if verdict is False else 'a presence test exists but its relation to this read is not recognised'),
-                      construct='bin-head', line=n.lineno))
-    # plain transition writer: pos option selects the second component
-    f = prog.func('transitionoutput', 'plain')
-    cfg = f.cfg
-    sel = {}
-    for n in cfg.eval_nodes():
-        if n.kind == 'stmt' and isinstance(n.ast, ast.Assign):
-            for sub in walk_own(n.ast):
-                if isinstance(sub, ast.ListComp) and isinstance(sub.generators[0].target, ast.Tuple):
-                    names = [unparse(x) for x in sub.generators[0].target.elts]
-                    used = [x.id for x in ast.walk(sub.elt) if isinstance(x, ast.Name)]
-                    facts = [x[0] for x in facts_at(cfg, n.id)]
-                    pol = ('haskey', f.kwarg, 'pos', True) in facts
-                    idx = [names.index(u) for u in used if u in names]
-                    sel[pol] = idx
-    ok = True if (sel.get(True) == [1] and sel.get(False) == [0]) else (False if (sel.get(True) == [0] or sel.get(False) == [1]) else None)
-    obs.append(Ob('R-GUARD/PLAIN', f.fq, 'the sentence written is the words, or the POS tags with the pos option', ok,
-                  'component 1 under `pos`, component 0 otherwise' if ok else 'selection %s' % sel,
-                  construct='plain-pos', line=f.node.lineno))
+                    if t == ('truthy', first, True):
+                        hs = const_str(x.body) == 'LEFT' and const_str(x.orelse) == 'RIGHT'
+                        hwhy = "'%s' if %s else '%s'" % (const_str(x.body), first, const_str(x.orelse))
+        obs.append(Ob('R-GUARD/TOPDOWN', f.fq, 'head side is LEFT iff the first ordered child is the head', hs, hwhy,
+                      construct='topdown-side', line=f.node.lineno, nontrivial=False))
+
+    def _sec_binarize():
+        # ---- binarization refuses unmarked trees before reading the mark
+        f = prog.func('transform', '_binarize_tree')
+        cfg = f.cfg
+        reads = []
+        for n in cfg.eval_nodes():
+            for root in cfg.exprs(n.id):
+                for sub in ast.walk(root):
+                    if isinstance(sub, ast.Subscript) and unparse(sub).endswith(".data['head']") and isinstance(sub.ctx, ast.Load):
+                        reads.append((n, sub))
+        if not reads:
+            raise Unrecognised('_binarize_tree does not read head marks')
+        for (n, sub) in reads:
+            X = unparse(sub.value)
+            facts = [x[0] for x in facts_at(cfg, n.id)]
+            from ..core import expr_guards
+            facts = facts + expr_guards(f, sub)
+            ok = ('haskey', X, 'head', True) in facts
+            verdict = True if ok else False
+            if not ok:
+                anytest = any(isinstance(x, ast.Compare) and isinstance(x.ops[0], (ast.In, ast.NotIn)) and const_str(x.left) == 'head'
+                              for x in walk_own(f.node))
+                hastry = any(isinstance(x, ast.Try) for x in walk_own(f.node))
+                if anytest or hastry or prog.opaque_calls(f, [root_name(sub)], before=n.id):
+                    verdict = None
+            obs.append(Ob('R-GUARD/BINARIZE', f.fq, 'the head mark `%s` is read only after its presence was checked' % unparse(sub),
+                          verdict, 'dominated by the failure of `\'head\' not in %s` (which raises)' % X if ok else
+                          ('read without the presence check: an unmarked tree gives KeyError or is binarized arbitrarily'
+                           if verdict is False else 'a presence test exists but its relation to this read is not recognised'),
+                          construct='bin-head', line=n.lineno))
+
+    def _sec_plain():
+        # plain transition writer: pos option selects the second component
+        f = prog.func('transitionoutput', 'plain')
+        cfg = f.cfg
+        sel = {}
+        for n in cfg.eval_nodes():
+            if n.kind == 'stmt' and isinstance(n.ast, ast.Assign):
+                for sub in walk_own(n.ast):
+                    if isinstance(sub, ast.ListComp) and isinstance(sub.generators[0].target, ast.Tuple):
+                        names = [unparse(x) for x in sub.generators[0].target.elts]
+                        used = [x.id for x in ast.walk(sub.elt) if isinstance(x, ast.Name)]
+                        facts = [x[0] for x in facts_at(cfg, n.id)]
+                        pol = ('haskey', f.kwarg, 'pos', True) in facts
+                        idx = [names.index(u) for u in used if u in names]
+                        sel[pol] = idx
+        ok = True if (sel.get(True) == [1] and sel.get(False) == [0]) else (False if (sel.get(True) == [0] or sel.get(False) == [1]) else None)
+        obs.append(Ob('R-GUARD/PLAIN', f.fq, 'the sentence written is the words, or the POS tags with the pos option', ok,
+                      'component 1 under `pos`, component 0 otherwise' if ok else 'selection %s' % sel,
+                      construct='plain-pos', line=f.node.lineno))
+
+    for nm_, fn_ in (('BRACKETS', _sec_brackets), ('LOPAR', _sec_lopar), ('GAP', _sec_gap), ('TOPDOWN', _sec_topdown),
+                     ('BINARIZE', _sec_binarize), ('PLAIN', _sec_plain)):
+        try:
+            fn_()
+        except Unrecognised as ex_:
+            obs.append(Ob('R-GUARD/' + nm_, 'trees', 'guard rule %s' % nm_, None, str(ex_), construct='guard-unrec:' + nm_))
     return obs, {}
